@@ -10,8 +10,12 @@
     S <host> <short> <os> <groups> <arr> <dict> <mix> [j=<pec>]   (joins set: check_period, event_command, command_endpoint)
     O <i> <dsl text ...>                              | h=<bits> s=<bits>          (oracle: value of atom i per target)
     R <id> <src> <tgt> <name> <for> <fk> <fv> <bodyhost> [a=<expr>].. [i=<expr>].. [u=<name,..>]..
-    L <concs>                                         | p1=<res> w1=<res> [p16=<res> w16=<res>]
-    A <H|S> <expr> <fv>                               | fast=<ares> slow=<ares> dups=<n>
+        the a= / i= tokens are the `assign where` / `ignore where` statements of the rule body, in source order
+    L <concs> [q][x]                                  | p1=<res> w1=<res> [p16=<res> w16=<res>] [q1=<res>] [x1=<res>]
+        q1 / x1: the permuted text (rules reversed, statements inside each rule reversed, objects reversed) as written / wrapped
+    A <H|S> <expr> <fv>                               | fast=<ares> slow=<ares> dups=<n> nf=<n> ns=<n> qf=<cnt> qs=<cnt> af=<cnt> as=<cnt>
+        nf/ns: entries GetFilterTargets returned (-1: raised); qf/qs, af/as: entries of `results` of GET /v1/objects/<type> and
+        POST /v1/actions/reschedule-check through HttpHandler::ProcessRequest (e<status>: status other than 200)
   Output lines:
     MISMATCH line=<n> case=<k> what=<...> impl=<...> model=<...>
     SPECFAIL line=<n> case=<k> clause=<name>
@@ -140,6 +144,7 @@ structure RuleRec where
   id : Nat
   rule : Rule
   bodyHost : Bool
+  stmts : List Stmt := []
 
 structure DSt where
   consts : List (String × Val) := []
@@ -184,6 +189,13 @@ structure DSt where
   apiDups : Nat := 0
   apiErr : Nat := 0
   apiDiverge : Nat := 0
+  apiCounts : Nat := 0
+  apiHttpDown : Nat := 0
+  apiMultFast : Nat := 0
+  permRuns : Nat := 0
+  permModelDiffers : Nat := 0
+  rulesInterleaved : Nat := 0
+  rulesMultiStmt : Nat := 0
   evals : Nat := 0
   mismatches : Nat := 0
   specfails : Nat := 0
@@ -323,6 +335,12 @@ def parseObs (s : String) : Option Obs :=
     if body == "-" then some (some []) else ((body.splitOn ",").mapM parseObjObs).map some
   else none
 
+/-- an `assign where` written below an `ignore where` of the same rule -/
+def assignAfterIgnore : List Stmt → Bool
+  | [] => false
+  | .ignore _ :: rest => rest.any (fun s => match s with | .assign _ => true | _ => false) || assignAfterIgnore rest
+  | _ :: rest => assignAfterIgnore rest
+
 /-! ### the `L` line -/
 
 def handleL (d : DSt) (n : Nat) (post : List String) : IO DSt := do
@@ -348,6 +366,8 @@ def handleL (d : DSt) (n : Nat) (post : List String) : IO DSt := do
                   rulesFor := d.rulesFor + (if r.fterm.isSome then 1 else 0),
                   rulesIgnore := d.rulesIgnore + (if r.ignore.isEmpty then 0 else 1),
                   rulesUse := d.rulesUse + (if r.scope.isEmpty then 0 else 1),
+                  rulesMultiStmt := d.rulesMultiStmt + (if rr.stmts.length ≥ 2 then 1 else 0),
+                  rulesInterleaved := d.rulesInterleaved + (if assignAfterIgnore rr.stmts then 1 else 0),
                   rulesShadow := d.rulesShadow + (if r.fkvar == "host" || r.fkvar == "service" || r.fvvar == "host" || r.fvvar == "service" then 1 else 0) }
   d := { d with evals := d.evals + (plainOutcomes w rules (extend inv (plainOutcomes w rules inv))).length }
   match mIdx with
@@ -376,13 +396,25 @@ def handleL (d : DSt) (n : Nat) (post : List String) : IO DSt := do
   d ← check d "w1" "load_wrap" sPlain
   d ← check d "p16" "load_plain16" sIdx
   d ← check d "w16" "load_wrap16" sPlain
+  -- the same configuration written in another order
+  let hasPerm := (kvOf post "q1").isSome || (kvOf post "x1").isSome
+  let sPermIdx := if hasPerm then showLoad d (indexedFull w (permRules rules) (permInv inv)) else ""
+  let sPermPlain := if hasPerm then showLoad d (plainFull w (permRules rules) (permInv inv)) else ""
+  if hasPerm then
+    d := { d with permRuns := d.permRuns + 1,
+                  permModelDiffers := d.permModelDiffers + (if sPermIdx != sIdx || sPermPlain != sPlain then 1 else 0) }
+  d ← check d "q1" "load_perm" sPermIdx
+  d ← check d "x1" "load_permwrap" sPermPlain
   -- the specification on the implementation's observations
   match (kvOf post "p1").bind parseObs, (kvOf post "w1").bind parseObs with
   | some p1, some w1 =>
     let p16 := (kvOf post "p16").bind parseObs
     let w16 := (kvOf post "w16").bind parseObs
     if (kvOf post "p16").isSome && p16.isNone || (kvOf post "w16").isSome && w16.isNone then return (← bad d n)
-    let obs : LoadObs := { plain1 := p1, wrap1 := w1, plain16 := p16, wrap16 := w16 }
+    let q1 := (kvOf post "q1").bind parseObs
+    let x1 := (kvOf post "x1").bind parseObs
+    if (kvOf post "q1").isSome && q1.isNone || (kvOf post "x1").isSome && x1.isNone then return (← bad d n)
+    let obs : LoadObs := { plain1 := p1, wrap1 := w1, plain16 := p16, wrap16 := w16, perm1 := q1, permWrap1 := x1 }
     if (expectedObjs w rules inv).isNone then d := { d with specSilent := d.specSilent + 1 }
     match specLoad w rules inv (fun exp => selfDependency depParent exp || dupNames exp) obs with
     | some cl =>
@@ -414,6 +446,12 @@ def parseApi (ty : TgtType) (s : String) : Option (Option (List Val)) :=
     let body := (s.drop 3).toString
     if body == "-" then some (some []) else ((body.splitOn ",").mapM (parseTargetName ty)).map some
   else none
+
+def dedupVals (l : List Val) : List Val := l.foldr (fun v acc => if acc.contains v then acc else v :: acc) []
+
+def showCounts (c : ApiCounts) : String :=
+  let f (o : Option Nat) : String := match o with | none => "e" | some k => toString k
+  s!"nf:{f c.nf},ns:{f c.ns},qf:{f c.qf},qs:{f c.qs},af:{f c.af},as:{f c.asl}"
 
 def handleA (d : DSt) (n : Nat) (pre post : List String) : IO DSt := do
   match pre with
@@ -447,11 +485,51 @@ def handleA (d : DSt) (n : Nat) (pre post : List String) : IO DSt := do
       if islow != showApi mslow then
         IO.println s!"MISMATCH line={n} case={d.caseNo} what=api_slow impl={islow} model={showApi mslow}"
         d := { d with mismatches := d.mismatches + 1 }
+      -- how many entries came back, from GetFilterTargets and through the real handlers
+      let cnt (key : String) : Option (Option Nat) :=   -- outer none: absent / unparsable
+        match kvOf post key with
+        | none => none
+        | some v => if v.startsWith "e" || v == "-1" then some none else v.toNat?.map some
+      let counts? : Option ApiCounts :=
+        match cnt "nf", cnt "ns", cnt "qf", cnt "qs", cnt "af", cnt "as" with
+        | some nf, some ns, some qf, some qs, some af, some as' => some { nf := nf, ns := ns, qf := qf, qs := qs, af := af, asl := as' }
+        | _, _, _, _, _, _ => none
+      let httpDown := ["qf", "qs", "af", "as"].any fun k => kvOf post k == some "x"
+      if (kvOf post "nf").isSome && counts?.isNone && !httpDown then return (← bad d n)
+      if httpDown then d := { d with apiHttpDown := d.apiHttpDown + 1 }
+      let mc : ApiCounts := { nf := mfast.map List.length, ns := mslow.map List.length, qf := queryResults mfast,
+                              qs := queryResults mslow, af := actionResults mfast, asl := actionResults mslow }
+      -- The counts are compared with the model only as far as the property constrains them.  How often the fast path lists an
+      -- object follows the recogniser (the transcription: once per disjunct, F-C16d); an implementation that lists every object
+      -- once, or whose recogniser accepts more shapes (so that even the wrapped filter is answered from the index), is not a
+      -- disagreement.  What every implementation must satisfy: a count is an error exactly when the query raises, and is at
+      -- least the number of distinct objects returned.
+      let onceF := mfast.map dedupVals
+      let atLeast (c lo : Option Nat) : Bool :=
+        match c, lo with
+        | none, none => true
+        | some k, some a => a ≤ k
+        | _, _ => false
+      match counts? with
+      | some c =>
+        d := { d with apiCounts := d.apiCounts + 1,
+                      apiMultFast := d.apiMultFast + (if mc.nf != mc.ns then 1 else 0) }
+        let ok := atLeast c.nf (onceF.map List.length) && atLeast c.ns (mslow.map List.length) &&
+                  atLeast c.qf (queryResults onceF) && atLeast c.qs (queryResults mslow) &&
+                  atLeast c.af (actionResults onceF) && atLeast c.asl (actionResults mslow)
+        if !ok then
+          IO.println s!"MISMATCH line={n} case={d.caseNo} what=api_counts impl={showCounts c} model={showCounts mc}"
+          d := { d with mismatches := d.mismatches + 1 }
+      | none => pure ()
       match parseApi ty ifast, parseApi ty islow with
       | some f, some s =>
-        match specApi w fv ty e inv { fast := f, slow := s } with
+        match specApi w fv ty e inv { fast := f, slow := s, counts := counts? } with
         | some cl =>
-          IO.println s!"SPECFAIL line={n} case={d.caseNo} clause={cl.name}"
+          -- F-C16d: the multiplicity clause fails exactly as the model (one entry per disjunct that names an existing
+          -- object) says, or in some other way
+          let shape := if cl == .apiMultiplicityIndependent then
+              (if counts? == some mc then " shape=per_disjunct" else " shape=other") else ""
+          IO.println s!"SPECFAIL line={n} case={d.caseNo} clause={cl.name}{shape}"
           d := { d with specfails := d.specfails + 1 }
         | none => pure ()
         return d
@@ -476,15 +554,18 @@ def handleR (d : DSt) (n : Nat) (pre : List String) : IO DSt := do
     if assign.length + ignore.length + (exprs.filter (·.startsWith "u=")).length != exprs.length then return (← bad d n)
     if uses.any (fun u => (d.uvars.lookup u).isNone) then return (← bad d n)
     let scope := uses.filterMap fun u => (d.uvars.lookup u).map fun v => (u, v)
-    match idS.toNat?, parseSrc srcS, parseTgt tgtS, mkFterm d forS, assign.mapM parseExpr, ignore.mapM parseExpr,
-          parseBool? bh with
-    | some id, some src, some tgt, some fterm, some as, some is, some bodyHost =>
+    -- the statements of the rule body in source order
+    let stmts? : Option (List Stmt) := (exprs.filter fun x => x.startsWith "a=" || x.startsWith "i=").mapM fun x =>
+      (parseExpr (x.drop 2).toString).map fun e => if x.startsWith "a=" then Stmt.assign e else Stmt.ignore e
+    match idS.toNat?, parseSrc srcS, parseTgt tgtS, mkFterm d forS, stmts?, parseBool? bh with
+    | some id, some src, some tgt, some fterm, some stmts, some bodyHost =>
       let loop : Option Loop := fterm.map fun f =>
         { term := f, kvar := if fk == "-" then "" else fk, vvar := if fv == "-" then "" else fv }
       if fterm.isNone && (fk != "-" || fv != "-") then return (← bad d n)
-      let r : Rule := { src := src, tgt := tgt, name := name, assign := as, ignore := is, loop := loop, scope := scope }
-      return { d with rules := d.rules ++ [{ id := id, rule := r, bodyHost := bodyHost }] }
-    | _, _, _, _, _, _, _ => bad d n
+      let r0 : Rule := { src := src, tgt := tgt, name := name, assign := [], ignore := [], loop := loop, scope := scope }
+      let r := r0.withStmts stmts
+      return { d with rules := d.rules ++ [{ id := id, rule := r, bodyHost := bodyHost, stmts := stmts }] }
+    | _, _, _, _, _, _ => bad d n
   | _ => bad d n
 
 def handle (d : DSt) (n : Nat) (line : String) : IO DSt := do
@@ -559,4 +640,4 @@ def main : IO Unit := do
   let stdin ← IO.getStdin
   let d ← foldLines stdin handle ({} : DSt)
   let d := closeCase d
-  IO.println s!"STATS cases={d.caseNo} steps={d.steps} loads={d.loads} load_runs={d.loadRuns} evaluations={d.evals} rules_targeted={d.rulesTargeted} rules_regular={d.rulesRegular} rules_for={d.rulesFor} rules_ignore={d.rulesIgnore} rules_loopvar_shadow={d.rulesShadow} created={d.createdIndexed} created_by_index={d.createdByIndex} rejected_indexed={d.rejIndexed} rejected_plain={d.rejPlain} model_index_vs_plain_diverge={d.diverge} spec_silent={d.specSilent} cascade_cases={d.cascade} cascade_services={d.cascadeCreated} rules_use={d.rulesUse} bound_checked={d.boundChecked} nav_names_differ_from_default={d.navDiffers} api_collide={d.apiCollide} api_collide_nav={d.apiCollideNav} api_collide_recognised={d.apiCollideRecognised} api={d.api} api_recognised={d.apiFast} api_fast_nonempty={d.apiFastNonEmpty} api_dups={d.apiDups} api_err={d.apiErr} api_model_diverge={d.apiDiverge} nontrivial={d.nontrivial} mismatches={d.mismatches} specfails={d.specfails} badlines={d.badlines}"
+  IO.println s!"STATS cases={d.caseNo} steps={d.steps} loads={d.loads} load_runs={d.loadRuns} evaluations={d.evals} rules_targeted={d.rulesTargeted} rules_regular={d.rulesRegular} rules_for={d.rulesFor} rules_ignore={d.rulesIgnore} rules_loopvar_shadow={d.rulesShadow} created={d.createdIndexed} created_by_index={d.createdByIndex} rejected_indexed={d.rejIndexed} rejected_plain={d.rejPlain} model_index_vs_plain_diverge={d.diverge} spec_silent={d.specSilent} cascade_cases={d.cascade} cascade_services={d.cascadeCreated} rules_use={d.rulesUse} bound_checked={d.boundChecked} nav_names_differ_from_default={d.navDiffers} api_collide={d.apiCollide} api_collide_nav={d.apiCollideNav} api_collide_recognised={d.apiCollideRecognised} api={d.api} api_recognised={d.apiFast} api_fast_nonempty={d.apiFastNonEmpty} api_dups={d.apiDups} api_err={d.apiErr} api_model_diverge={d.apiDiverge} api_counts={d.apiCounts} api_http_unavailable={d.apiHttpDown} api_model_fast_multiplicity_differs={d.apiMultFast} perm_runs={d.permRuns} perm_model_differs={d.permModelDiffers} rules_multi_stmt={d.rulesMultiStmt} rules_assign_after_ignore={d.rulesInterleaved} nontrivial={d.nontrivial} mismatches={d.mismatches} specfails={d.specfails} badlines={d.badlines}"
